@@ -48,10 +48,13 @@ PatternFails(ev) ==
 Nearest(d) == IF d[2] >= 500000000 THEN d[1] + 1 ELSE d[1]
 BinsFails(ev) ==
     IF ev.out # "ret" THEN {"raised_" \o ev.out}
-    ELSE LET ks == { ev.offsets[q].k : q \in 1..Len(ev.offsets) } \cup { Nearest(FSub(ev.mass[q].m, ev.m0)) : q \in 1..Len(ev.mass) }
-             Binned(k) == FSum([ q \in 1..Len(ev.mass) |-> IF Nearest(FSub(ev.mass[q].m, ev.m0)) = k THEN AFix(ev.mass[q].a) ELSE FZero ])
+    ELSE LET m0 == IF Resolvable(Comp(ev.comp), TRUE) THEN CompMass(Comp(ev.comp), TRUE) ELSE ev.m0   \* offsets count from the monoisotopic mass
+             ks == { ev.offsets[q].k : q \in 1..Len(ev.offsets) } \cup { Nearest(FSub(ev.mass[q].m, m0)) : q \in 1..Len(ev.mass) }
+             Binned(k) == FSum([ q \in 1..Len(ev.mass) |-> IF Nearest(FSub(ev.mass[q].m, m0)) = k THEN AFix(ev.mass[q].a) ELSE FZero ])
              Off(k) == FSum([ q \in 1..Len(ev.offsets) |-> IF ev.offsets[q].k = k THEN AFix(ev.offsets[q].a) ELSE FZero ]) IN
-         IF \E k \in ks : ~FWithin(Binned(k), Off(k), Micro(10)) THEN {"neutron_view_is_not_the_binned_mass_view"} ELSE {}
+         (* both views prune peaks below 1e-8 at every convolution step, which renormalises wide patterns slightly     *)
+         (* differently (more in the tails): 1e-5 absolute + 0.1 %                                                            *)
+         IF \E k \in ks : ~FWithin(Binned(k), Off(k), FAdd(Micro(10), FDivE4(FMulInt(Binned(k), 10)))) THEN {"neutron_view_is_not_the_binned_mass_view"} ELSE {}
 
 (* k = "merge": merge_isotopic_distributions(d1, d2) adds abundances at equal masses (dyadic abundances: exact) *)
 MergeFails(ev) ==
@@ -66,16 +69,17 @@ MergeFails(ev) ==
 
 (* k = "exact": composition of at most 12 atoms over C,H,N,O,S,P (integer counts), default options.             *)
 (* ev.peaks = <<[m |-> Fix mass, a8 |-> abundance in 1e-8 units, relative to the largest peak]>>                   *)
-(* Library masses are rounded to 5 decimals, so peaks are matched within 1.5e-5 Da; abundances relative to the     *)
-(* largest peak must agree within 2e-6 wherever either side is above 1e-6.                                          *)
-NearM(a, b) == FWithin(a, b, Micro(15))
+(* Library masses are rounded to 5 decimals after every element is folded in, so peaks are matched within          *)
+(* 5e-6 Da x (number of elements + 1); abundances relative to the largest peak must agree within 3e-6 wherever     *)
+(* either side is above 1e-6.                                                                                       *)
+NearMK(a, b, k) == FWithin(a, b, Micro(5 * (k + 1)))
 ExactFails(ev) ==
     IF ev.out # "ret" THEN {"raised_" \o ev.out}
     ELSE LET E == Exact(ev.comp)
              mx == MaxAb(E)
              (* exact abundance near a mass, relative to the exact maximum, in 1e-8 units *)
-             ExactNear(m) == SumAb({ d \in E : NearM(d[1], m) })
-             LibNear(m) == LET S == { q \in 1..Len(ev.peaks) : NearM(ev.peaks[q].m, m) } IN
+             ExactNear(m) == SumAb({ d \in E : NearMK(d[1], m, Len(ev.comp)) })
+             LibNear(m) == LET S == { q \in 1..Len(ev.peaks) : NearMK(ev.peaks[q].m, m, Len(ev.comp)) } IN
                            SumAb({ <<q, ev.peaks[q].a8>> : q \in S })
              (* compare x/mx (exact) with y/1e8 (library, already relative): |x * 1e8 - y * mx| <= tol * mx, done limb-wise *)
              Close(x, y) == LET lhs == MulA(y, mx) IN (x >= lhs - 300 - mx \div 400000) /\ (x <= lhs + 300 + mx \div 400000) IN
